@@ -25,6 +25,16 @@ use std::io::{BufRead, BufReader, Write};
 use std::process::{Child, ChildStdin, ChildStdout, Command, Stdio};
 use std::sync::Mutex;
 
+pub static T_PARSE: std::sync::atomic::AtomicU64 = std::sync::atomic::AtomicU64::new(0);
+pub static T_BRIDGE: std::sync::atomic::AtomicU64 = std::sync::atomic::AtomicU64::new(0);
+pub static T_MODEL: std::sync::atomic::AtomicU64 = std::sync::atomic::AtomicU64::new(0);
+pub static T_COMPILE: std::sync::atomic::AtomicU64 = std::sync::atomic::AtomicU64::new(0);
+pub static T_NODE: std::sync::atomic::AtomicU64 = std::sync::atomic::AtomicU64::new(0);
+pub static T_BACK: std::sync::atomic::AtomicU64 = std::sync::atomic::AtomicU64::new(0);
+fn tick(c: &std::sync::atomic::AtomicU64, t: std::time::Instant) -> std::time::Instant {
+    c.fetch_add(t.elapsed().as_micros() as u64, std::sync::atomic::Ordering::Relaxed);
+    std::time::Instant::now()
+}
 pub const MOCK: &str = "/verif/js/mock_idl.js";
 
 pub fn machinery(msg: &str) -> ! {
@@ -132,6 +142,27 @@ impl Drop for Node {
     }
 }
 
+/// Evaluator processes are reused across levels (starting node costs far more than an
+/// evaluation): a worker takes one from the pool and puts it back when its level ends.
+static POOL: Mutex<Vec<Node>> = Mutex::new(Vec::new());
+pub struct Pooled(Option<Node>);
+impl Pooled {
+    pub fn take() -> Pooled {
+        let n = POOL.lock().unwrap().pop();
+        Pooled(Some(n.unwrap_or_else(Node::spawn)))
+    }
+    pub fn node(&mut self) -> &mut Node {
+        self.0.as_mut().unwrap()
+    }
+}
+impl Drop for Pooled {
+    fn drop(&mut self) {
+        if let Some(n) = self.0.take() {
+            POOL.lock().unwrap().push(n);
+        }
+    }
+}
+
 #[derive(Clone, Debug)]
 pub struct Case {
     pub prog: Prog,
@@ -192,6 +223,13 @@ pub fn mask(msg: &str) -> String {
     if let Some(rest) = out.strip_suffix(" is not defined") {
         if !rest.contains(' ') {
             return "_ is not defined".into();
+        }
+    }
+    if let Some(rest) = out.strip_suffix(" is not a function") {
+        if let Some((obj, prop)) = rest.split_once('.') {
+            if !obj.contains(' ') && !prop.contains(' ') {
+                return format!("_.{prop} is not a function");
+            }
         }
     }
     out
@@ -273,6 +311,7 @@ pub fn front(did: &str, model: Option<&(Env, Option<Ty>)>) -> Front {
 #[allow(clippy::type_complexity)]
 fn front_(did: &str, model: Option<&(Env, Option<Ty>)>) -> Result<(Obs, String, bool, Env, Option<Ty>), Obs> {
     let mut o = Obs::default();
+    let tt = std::time::Instant::now();
     // --- real front end
     let parsed = catch(|| did.parse::<candid_parser::IDLProg>());
     let ast = match parsed {
@@ -300,6 +339,7 @@ fn front_(did: &str, model: Option<&(Env, Option<Ty>)>) -> Result<(Obs, String, 
         }
     };
     o.with_actor = actor.is_some();
+    let tt = tick(&T_PARSE, tt);
     // --- the front end's own view through the bridge
     let renv = match bridge::from_real_env(&te) {
         Ok(e) => e,
@@ -317,6 +357,7 @@ fn front_(did: &str, model: Option<&(Env, Option<Ty>)>) -> Result<(Obs, String, 
         }
     };
     o.is_class = matches!(ractor, Some(Ty::Class(..)));
+    let tt = tick(&T_BRIDGE, tt);
     // --- model vs real (harness consistency)
     if let Some((menv, mactor)) = model {
         let merged = menv.rename(&|s| format!("m.{s}")).merge_disjoint(&renv.rename(&|s| format!("r.{s}")));
@@ -352,6 +393,7 @@ fn front_(did: &str, model: Option<&(Env, Option<Ty>)>) -> Result<(Obs, String, 
             }
         }
     }
+    let tt = tick(&T_MODEL, tt);
     // --- subject: compile twice
     let c1 = catch(|| candid_parser::bindings::javascript::compile(&te, &actor));
     let c2 = catch(|| candid_parser::bindings::javascript::compile(&te, &actor));
@@ -371,6 +413,7 @@ fn front_(did: &str, model: Option<&(Env, Option<Ty>)>) -> Result<(Obs, String, 
             return Err(o);
         }
     };
+    tick(&T_COMPILE, tt);
     o.js = Some(js.clone());
     Ok((o, js, actor.is_some(), renv, ractor))
 }
@@ -385,7 +428,8 @@ pub fn back(f: Front, model: Option<&(Env, Option<Ty>)>, resp: Value) -> Obs {
         let name = resp["name"].as_str().unwrap_or("Unknown").to_string();
         let msg = resp["message"].as_str().unwrap_or("").to_string();
         let stage = resp["stage"].as_str().unwrap_or("?");
-        o.fail = Some(Fail { class: name.clone(), kind: mask(&msg), detail: format!("{name} at stage {stage}: {msg}") });
+        let class = if stage == "result" { "result-not-a-type".to_string() } else { name.clone() };
+        o.fail = Some(Fail { class, kind: mask(&msg), detail: format!("{name} at stage {stage}: {msg}") });
         return o;
     }
     if !has_actor {
@@ -519,6 +563,48 @@ fn replay(path: &str) -> i32 {
     }
 }
 
+/// Vacuity guard of the oracle itself: hand-made mutations of a correct generated module must
+/// all be reported with the expected failure class/kind; otherwise the harness is broken.
+fn mutation_controls(node: &mut Node) -> u64 {
+    let did = "type t = opt record { a : nat; 1 : t };\nservice : (t, text) -> { m : (t, nat) -> (text) query; n : () -> () }\n";
+    let base = front(did, None);
+    let Some((js, _, _, _)) = base.pending.clone() else { machinery("mutation control: the control program did not compile") };
+    let resp = node.eval(&js, true);
+    let o = back(base, None, resp);
+    if o.fail.is_some() || o.harness.is_some() {
+        machinery(&format!("mutation control: the unmodified control program is reported as failing: {:?}", o.fail));
+    }
+    let muts: [(&str, &str, &str, &str); 13] = [
+        ("['query']", "[]", "type-differs", "annotations"),
+        ("[IDL.Text], ['query']", "[IDL.Int], ['query']", "type-differs", "primitive"),
+        ("'a' : IDL.Nat", "'b' : IDL.Nat", "type-differs", "field-ids"),
+        ("[t, IDL.Nat]", "[IDL.Nat, t]", "type-differs", ""),
+        ("'n' : IDL.Func", "'nn' : IDL.Func", "type-differs", "method-names"),
+        ("return [t, IDL.Text];", "return [IDL.Text, t];", "type-differs", ""),
+        ("return [t, IDL.Text];", "return [t];", "type-differs", "init-arity"),
+        ("_1_ : t", "_2_ : t", "type-differs", "field-ids"),
+        ("IDL.Opt(IDL.Record", "IDL.Vec(IDL.Record", "type-differs", "constructor"),
+        ("    'n' : IDL.Func([], [], []),\n", "", "type-differs", "method-count"),
+        ("  t.fill(IDL.Opt(IDL.Record({ _1_ : t, 'a' : IDL.Nat })));\n  return IDL.Service", "  return IDL.Service", "type-differs", "rec-unfilled"),
+        ("export const init", "export const inti", "ReferenceError", ""),
+        ("return IDL.Service({", "return IDL.Opt(IDL.Service({", "SyntaxError", ""),
+    ];
+    let mut n = 0;
+    for (pat, rep, class, kind) in muts {
+        if !js.contains(pat) {
+            machinery(&format!("mutation control: pattern {pat:?} not found in the generated module (output format changed?)\n{js}"));
+        }
+        let mutated = js.replacen(pat, rep, 1);
+        let resp = node.eval(&mutated, true);
+        let o = back(front(did, None), None, resp);
+        match &o.fail {
+            Some(f) if f.class == class && (kind.is_empty() || f.kind == kind) => n += 1,
+            other => machinery(&format!("mutation control: {pat:?} -> {rep:?} expected {class}/{kind}, observed {other:?}")),
+        }
+    }
+    n
+}
+
 /// hidden helper: `c17 --emit file.did` prints the generated JS and the mock's answer
 fn emit(path: &str) -> i32 {
     let did = std::fs::read_to_string(path).unwrap_or_else(|e| machinery(&format!("{path}: {e}")));
@@ -544,6 +630,10 @@ fn main() {
     let harness: Mutex<Vec<String>> = Mutex::new(vec![]);
     let rejected: Mutex<BTreeMap<String, (u64, String)>> = Mutex::new(BTreeMap::new());
 
+    let controls = {
+        let mut p = Pooled::take();
+        mutation_controls(p.node())
+    };
     let alpha = names::Alphabets::probe();
     let fams = families::all(tier, &alpha);
     let mut fam_stats = vec![];
@@ -567,6 +657,7 @@ fn main() {
         const BATCH: u64 = 64;
         let record = |case: &Case, did: String, o: Obs, rep: &mut Report| {
             rep.evaluations += 1;
+            rep.states += 1;
             rep.count("programs", 1);
             rep.count("compile_calls", o.compiles);
             rep.count("node_evaluations", o.node_evals);
@@ -624,9 +715,10 @@ fn main() {
             fname,
             n,
             BATCH,
-            || (Node::spawn(), Pending::new()),
+            || (Pooled::take(), Pending::new()),
             |st, i, rep| {
-                let (node, pending) = st;
+                let (pooled, pending) = st;
+                let node = pooled.node();
                 let case = &cases[i as usize];
                 let did = case.did();
                 let model = case.prog.to_model();
@@ -637,15 +729,19 @@ fn main() {
                     return;
                 }
                 let reqs: Vec<(&str, bool)> = pending.iter().filter_map(|p| p.3.pending.as_ref().map(|(js, a, _, _)| (js.as_str(), *a))).collect();
+                let tt = std::time::Instant::now();
                 let mut resps = node.eval_batch(&reqs).into_iter();
+                let tt = tick(&T_NODE, tt);
                 for (idx, did, model, f) in pending.drain(..) {
                     let o = if f.pending.is_some() { back(f, Some(&model), resps.next().unwrap()) } else { f.obs };
                     record(&cases[idx], did, o, rep);
                 }
+                tick(&T_BACK, tt);
             },
         );
         if std::env::var("C17_TIMING").is_ok() {
-            eprintln!("family {fname}: {n} programs in {:.2}s", t0.elapsed().as_secs_f64());
+            let g = |c: &std::sync::atomic::AtomicU64| c.swap(0, std::sync::atomic::Ordering::Relaxed) / 1000;
+            eprintln!("family {fname}: {n} programs in {:.2}s  [cpu ms: parse+check {} bridge {} model-eq {} compile {} node {} back {}]", t0.elapsed().as_secs_f64(), g(&T_PARSE), g(&T_BRIDGE), g(&T_MODEL), g(&T_COMPILE), g(&T_NODE), g(&T_BACK));
         }
         fam_stats.push(json!({"family": fname, "programs": n}));
         rep.merge(r);
@@ -666,30 +762,33 @@ fn main() {
     let mut fl = failures.into_inner().unwrap();
     fl.sort_by(|a, b| (a.did.len(), &a.did, a.case.family).cmp(&(b.did.len(), &b.did, b.case.family)));
     fl.dedup_by(|a, b| a.did == b.did);
-    let keyed: Mutex<Vec<(usize, String, String, bool)>> = Mutex::new(vec![]);
+    let keyed: Mutex<Vec<(usize, String, names::Attribution, bool)>> = Mutex::new(vec![]);
     let nfail = fl.len() as u64;
-    let r = ctx.par_range("attribution-and-recheck", nfail, 8, Node::spawn, |node, i, rep| {
+    let r = ctx.par_range("attribution-and-recheck", nfail, 8, Pooled::take, |pooled, i, rep| {
+        let node = pooled.node();
         let f = &fl[i as usize];
         // same input once more => same observation
         let again = pipeline(&f.did, Some(&f.case.prog.to_model()), node);
         rep.count("node_evaluations", again.node_evals);
         rep.count("compile_calls", again.compiles);
         let stable = again.fail.as_ref() == Some(&f.fail);
-        let (trig, canon, evals) = names::attribute(&f.case, &f.fail, node);
-        rep.count("node_evaluations", evals);
-        rep.count("attribution_runs", evals);
-        let key = if trig.is_empty() {
-            format!("{}|{}|prog={}", f.fail.class, f.fail.kind, canon)
+        let at = names::attribute(&f.case, &f.fail, &f.js, &f.resp, node);
+        rep.count("node_evaluations", at.runs);
+        rep.count("compile_calls", 2 * at.runs);
+        rep.count("attribution_runs", at.runs);
+        let key = if at.triggers.is_empty() {
+            format!("{}|{}|prog={}", at.min_fail.class, at.min_fail.kind, at.min.did())
         } else {
-            format!("{}|{}|{}", f.fail.class, f.fail.kind, trig.join(","))
+            format!("{}|{}|{}", at.min_fail.class, at.min_fail.kind, at.triggers.join(","))
         };
-        keyed.lock().unwrap().push((i as usize, key, trig.join(","), stable));
+        keyed.lock().unwrap().push((i as usize, key, at, stable));
     });
     rep.merge(r);
     let mut keyed = keyed.into_inner().unwrap();
-    keyed.sort();
+    keyed.sort_by(|a, b| a.0.cmp(&b.0));
     let mut seen_keys: BTreeMap<String, u64> = BTreeMap::new();
-    for (i, key, trig, stable) in &keyed {
+    let mut groups: BTreeMap<String, (u64, u64)> = BTreeMap::new();
+    for (i, key, at, stable) in &keyed {
         let f = &fl[*i];
         if !stable {
             rep.violation(
@@ -699,24 +798,31 @@ fn main() {
             );
             continue;
         }
+        let roles: Vec<&str> = at.triggers.iter().map(|t| t.split(':').next().unwrap_or("")).collect();
+        let g = groups.entry(format!("{}|{}|{}", at.min_fail.class, at.min_fail.kind, roles.join(","))).or_insert((0, 0));
+        g.1 += 1;
         let c = seen_keys.entry(key.clone()).or_insert(0);
         *c += 1;
         if *c > 1 {
             // same failure class, same triggering names: the smaller program was recorded
             continue;
         }
+        g.0 += 1;
+        let did = at.min.did();
+        let resp = at.min_resp.clone().unwrap_or(Value::Null);
         rep.violation(
             key,
-            format!("{} [{}] minimal program: {}", f.fail.detail, f.fail.class, f.did.replace('\n', " ")),
+            format!("{} [{}] minimal program: {}", at.min_fail.detail, at.min_fail.class, did.replace('\n', " ")),
             json!({
-                "did": f.did,
-                "class": f.fail.class,
-                "kind": f.fail.kind,
-                "detail": f.fail.detail,
-                "triggering_names": trig,
+                "did": did,
+                "class": at.min_fail.class,
+                "kind": at.min_fail.kind,
+                "detail": at.min_fail.detail,
+                "triggering_names": at.triggers,
+                "smallest_generated_program": f.did,
                 "family": f.case.family,
-                "js": f.js,
-                "node_response": if f.fail.class == "type-differs" || f.fail.class == "actor-not-service" { f.resp.clone().unwrap_or(Value::Null) } else { f.resp.as_ref().map(|r| json!({"stage": r["stage"], "name": r["name"], "message": r["message"]})).unwrap_or(Value::Null) },
+                "js": at.min_js,
+                "node_response": if resp["ok"] == true { resp.clone() } else { json!({"stage": resp["stage"], "name": resp["name"], "message": resp["message"]}) },
             }),
         );
     }
@@ -735,13 +841,37 @@ fn main() {
     ];
     let extra = json!({
         "programs": total_programs,
+        "oracle_mutation_controls_detected": controls,
         "families": fam_stats,
         "failing_programs_distinct": nfail,
         "failing_programs_per_key": per_key,
+        "failure_groups_by_class_kind_and_trigger_roles": groups.iter().map(|(k, (keys, progs))| json!({"group": k, "distinct_keys": keys, "failing_programs": progs})).collect::<Vec<_>>(),
         "def_name_alphabet": alpha.def_names.len(),
         "label_alphabet": alpha.labels.len(),
         "names_rejected_by_frontend_as_definition_names": alpha.rejected_defs,
     });
+    POOL.lock().unwrap().clear();
+    // replay files of earlier runs of this property are stale once this run reports
+    if let Ok(rd) = std::fs::read_dir("/verif/replays/C17") {
+        for e in rd.flatten() {
+            if e.path().extension().map(|x| x == "json").unwrap_or(false) {
+                let _ = std::fs::remove_file(e.path());
+            }
+        }
+    }
+    println!(
+        "C17-COUNTS programs={} with_actor={} class_actors={} frontend_rejected={} node_evaluations={} compile_calls={} failing_programs={} distinct_failing_programs={} violation_keys={} outcome_classes={}",
+        rep.counters.get("programs").copied().unwrap_or(0),
+        rep.counters.get("programs_with_actor").copied().unwrap_or(0),
+        rep.counters.get("programs_with_class_actor").copied().unwrap_or(0),
+        rep.counters.get("frontend_rejected").copied().unwrap_or(0),
+        rep.counters.get("node_evaluations").copied().unwrap_or(0),
+        rep.counters.get("compile_calls").copied().unwrap_or(0),
+        rep.counters.get("failing_programs").copied().unwrap_or(0),
+        nfail,
+        rep.violations.len(),
+        rep.outcomes.len()
+    );
     let code = finish(&ctx, rep, rule, &assumptions, extra);
     std::process::exit(code);
 }
